@@ -54,6 +54,10 @@ class Literal(Exception):
         return "{%d}" % self.value
 
 
+class LiteralArgument(bytes):
+    """A command argument already formatted as a literal ({size+} CRLF data)."""
+
+
 def authentication_required(meth):
     """Simple class method decorator.
 
@@ -219,18 +223,25 @@ class Client:
     def __prepare_args(self, args: List[Any]) -> List[bytes]:
         """Format command arguments before sending them.
 
-        Command arguments of type string must be quoted, the only
-        exception concerns size indication (of the form {\d\+?}).
+        Command arguments of type string are quoted (with backslashes
+        and double quotes escaped) or, when they contain characters a
+        quoted string cannot carry, sent as literals. Arguments already
+        formatted as literals (see __prepare_content) are left as is.
 
         :param args: list of arguments
         :return: a list for transformed arguments
         """
         ret = []
         for a in args:
+            if isinstance(a, LiteralArgument):
+                ret += [a]
+                continue
             if isinstance(a, bytes):
-                if self.__size_expr.match(a):
-                    ret += [a]
+                if b"\r" in a or b"\n" in a or b"\0" in a:
+                    # not representable as a quoted string
+                    ret += [b"{%d+}%s%s" % (len(a), CRLF, a)]
                 else:
+                    a = a.replace(b"\\", b"\\\\").replace(b'"', b'\\"')
                     ret += [b'"' + a + b'"']
                 continue
             ret += [bytes(str(a).encode("utf-8"))]
@@ -246,7 +257,7 @@ class Client:
         :return: transformed script as bytes
         """
         bcontent: bytes = content.encode("utf-8")
-        return b"{%d+}%s%s" % (len(bcontent), CRLF, bcontent)
+        return LiteralArgument(b"{%d+}%s%s" % (len(bcontent), CRLF, bcontent))
 
     def __send_command(
         self,
